@@ -56,16 +56,16 @@ def hasNonColumnAttr (nm : Names) (s : State) (k : String) : Bool :=
 def addPlaceholder (nm : Names) (s : State) (k : String) : State :=
   if !hasNonColumnAttr nm s k && nm.ident k && !s.attrs.contains k then { s with attrs := s.attrs ++ [k] } else s
 
-/-- `DataFrame.__init__`. -/
+/-- `DataFrame.__init__`: `dict(pairs)`; `nrow = max(map(util.length, values), default=0)`;
+    every value becomes `DataFrameColumn(value, nrow=nrow)` (which has `nrow` elements whenever it
+    is accepted); every identifier key that is not otherwise an attribute gets the placeholder. -/
 def new (nm : Names) (ps : List (String × Shape)) : Option State :=
   let d := dictOf ps
   let nrow := (d.map (fun p => p.2.length)).foldl max 0
-  let cols := d.mapM (fun p => (column p.2 (some nrow)).map (fun n => (p.1, n)))
-  match cols with
-  | none => none
-  | some cols =>
-    let s : State := { cols := cols, attrs := [] }
-    some (cols.foldl (fun s c => addPlaceholder nm s c.1) s)
+  if d.all (fun p => (column p.2 (some nrow)).isSome) then
+    some { cols := d.map (fun p => (p.1, nrow)),
+           attrs := (d.map (·.1)).filter (fun k => nm.ident k && !nm.classAttr k) }
+  else none
 
 /-- `_reconcile_column` + `__setitem__`. -/
 def setitem (nm : Names) (s : State) (k : String) (v : Shape) : Option State :=
@@ -83,6 +83,25 @@ def dropAttr (nm : Names) (s : State) (k : String) : State :=
 
 def delitem (nm : Names) (s : State) (k : String) : Option State :=
   if s.has k then some (dropAttr nm { s with cols := s.cols.filter (fun c => c.1 != k) } k) else none
+
+/-- `columns = [self.pop(fm) for fm, to in pairs]` of the `colnames` setter. -/
+def popAll (nm : Names) : State → List String → Option (State × List Nat)
+  | s, [] => some (s, [])
+  | s, k :: ks =>
+    match s.cols.find? (fun c => c.1 == k) with
+    | none => none
+    | some c =>
+      match delitem nm s k with
+      | none => none
+      | some s' => (popAll nm s' ks).map (fun r => (r.1, c.2 :: r.2))
+
+/-- `for (fm, to), column in zip(pairs, columns): self[to] = column`. -/
+def assignAll (nm : Names) : State → List (String × Nat) → Option State
+  | s, [] => some s
+  | s, (k, n) :: rest =>
+    match setitem nm s k (.seq n) with
+    | none => none
+    | some s' => assignAll nm s' rest
 
 inductive Op where
   | setitem (k : String) (v : Shape)
@@ -109,20 +128,9 @@ def step (nm : Names) (s : State) : Op → Option State
   | .colnames ns =>
     -- pairs = zip(old, new); pop all renamed columns, then assign them one by one
     let pairs := s.names.zip ns
-    let popped : Option (State × List Nat) := pairs.foldl (fun acc p =>
-      match acc with
-      | none => none
-      | some (st, lens) =>
-        match st.cols.find? (fun c => c.1 == p.1) with
-        | none => none
-        | some c => (delitem nm st p.1).map (fun st' => (st', lens ++ [c.2]))) (some (s, []))
-    match popped with
+    match popAll nm s (pairs.map (·.1)) with
     | none => none
-    | some (st, lens) =>
-      (pairs.zip lens).foldl (fun acc pl =>
-        match acc with
-        | none => none
-        | some st => setitem nm st pl.1.2 (.seq pl.2)) (some st)
+    | some (st, lens) => assignAll nm st ((pairs.map (·.2)).zip lens)
   | .rebuild ps => new nm ps
 
 /-- what `getattr(data, name)` gives. -/
@@ -139,6 +147,6 @@ def lookupAttr (nm : Names) (s : State) (k : String) : Attr :=
 /-- the well-formedness invariant of C01. -/
 def Inv (nm : Names) (s : State) : Prop :=
   s.names.Nodup ∧ (∀ c ∈ s.cols, c.2 = s.nrow) ∧
-  (∀ k, k ∈ s.attrs ↔ (k ∈ s.names ∧ nm.ident k = true ∧ nm.classAttr k = false)) ∧ s.attrs.Nodup
+  (∀ k, k ∈ s.attrs ↔ (k ∈ s.names ∧ nm.ident k = true ∧ nm.classAttr k = false))
 
 end DI.FS
